@@ -8,6 +8,8 @@ every returned phase list is judged by the proven validator.
 import math
 from fractions import Fraction
 
+import zlib
+
 import numpy as np
 
 import core
@@ -21,7 +23,11 @@ def one(ctx, A, Pc, tol, kind, meta):
     drv = ctx.driver()
     try:
         with core.quiet():
-            ph = A.QuantumSignalProcessingPhases(np.array(Pc), signal_operator="Wx", measurement="z", tolerance=tol)
+            if tol == 1e-6 and zlib.crc32(repr(list(Pc)).encode()) % 3 == 0:      # a third of the default-tolerance calls leave it to the library
+                ctx.count("tolerance:library-default")
+                ph = A.QuantumSignalProcessingPhases(np.array(Pc), signal_operator="Wx", measurement="z")
+            else:
+                ph = A.QuantumSignalProcessingPhases(np.array(Pc), signal_operator="Wx", measurement="z", tolerance=tol)
         out = ("ok", [float(x) for x in ph])
         core.poison(ph)          # the caller owns the returned list; the library must not have kept it
     except Exception as e:  # noqa
@@ -86,8 +92,8 @@ def run(tier, seed):
     degrees = list(range(1, 21))
     reps = 12 if tier == "quick" else 80
     for n in degrees:
-        for rep in range(reps + 3):
-            ph, style = P.corner_phases(rng, n, style=(None if rep < reps else ["nearly-real", "chebyshev", "mirror"][rep - reps]))
+        for rep in range(reps + 3 + (4 if n >= 10 else 0)):
+            ph, style = P.corner_phases(rng, n, style=(None if (rep < reps or rep >= reps + 3) else ["nearly-real", "chebyshev", "mirror"][rep - reps]))
             Pc = P.corner_poly(ph)
             tol = float(rng.choice([1e-6, 1e-6, 1e-4, 1e-9, 1e-12]))
             r = rng.random()
@@ -114,6 +120,12 @@ def run(tier, seed):
                 for tol2 in (1e-3, 1e-6, 1e-10):
                     if tol2 != tol:
                         one(ctx, A, list(Pc), tol2, kind + "/sibling", {"style": style, "source_phases": ph, "asked_before_with_tolerance": tol})
+    # the pipeline's own accuracy limit: generic achievable corners of degree 10..20 under a LOOSE tolerance - where the
+    # decomposition occasionally loses all accuracy and only the closing self-check stands between that and the caller
+    for _ in range(160 if tier == "quick" else 1500):
+        n = int(rng.integers(10, 21))
+        ph, style = P.corner_phases(rng, n, style="generic")
+        one(ctx, A, list(P.corner_poly(ph)), float(rng.choice([1e-3, 1e-3, 1e-4])), "achievable/accuracy-limit", {"style": style, "source_phases": ph})
     ctx.assumptions = ["which inputs the floating-point pipeline completes on is explored; every RETURNED result is judged by the proven validator"]
     return ctx.finish(
         rule="complex definite-parity P of degree 1..20: corners <0|U_x|0> of phase lists in 6 styles (generic, real, imaginary, "
